@@ -837,6 +837,7 @@ def main():
     ap.add_argument('--rebaseline', action='store_true')
     a = ap.parse_args()
     tier = a.tier if a.tier in ('quick', 'thorough') else 'quick'
+    os.environ['VX_TIER'] = tier      # replay programs widen their enumeration in the thorough tier
     seed = int(os.environ.get('VERIF_SEED', '0') or 0)
     only = a.unit
     if a.replay:
